@@ -49,8 +49,30 @@ var RepoPkgs = []string{"errors", "gen", "graph", "transformer", "utils", "valid
 // false only the syntax trees and type information are produced (faster).
 func Load(needSSA bool) (*Prog, error) { return LoadPatterns(needSSA, "./...") }
 
+// Memo makes LoadPatterns return the program of an earlier identical request of this process. It is
+// set only by the dev-time command "verif checkall", which runs several checks over one tree in one
+// process; a registered check always loads afresh.
+var Memo bool
+
+var memo = map[string]*Prog{}
+
 // LoadPatterns loads the given package patterns (relative to /repo/pkg/go).
 func LoadPatterns(needSSA bool, patterns ...string) (*Prog, error) {
+	if !Memo {
+		return loadPatterns(needSSA, patterns...)
+	}
+	key := fmt.Sprint(needSSA, patterns, RepoRoot())
+	if p, ok := memo[key]; ok {
+		return p, nil
+	}
+	p, err := loadPatterns(needSSA, patterns...)
+	if err == nil {
+		memo[key] = p
+	}
+	return p, err
+}
+
+func loadPatterns(needSSA bool, patterns ...string) (*Prog, error) {
 	root := RepoRoot()
 	dir := filepath.Join(root, "pkg", "go")
 	mode := packages.NeedName | packages.NeedFiles | packages.NeedCompiledGoFiles | packages.NeedImports |
